@@ -173,6 +173,21 @@ def check(run, driver):
         if not same:
             run.prop_fail("after the graph was changed in place, the export of the same graph object differs from the export of a fresh graph with the same edges (stale state)",
                           {"edges_after_change": [(repr(a), repr(b), dd) for a, b, dd in G.edges(data=True)], "exporter": "pcmci" if it % 2 else "network"}, {"clause": "history"})
+    # ---- history: the returned frame belongs to the caller; editing it must not affect a later export (edgeless graphs included)
+    for it in range(8):
+        Ge = nx.MultiDiGraph(); Ge.add_nodes_from(range(it % 3 + 1))
+        for exp, cols in ((lambda g: U.network_to_dataframe(g, method="standard"), BASE), (U.pcmci_network_to_dataframe, ["Source", "Sink", "Lag", "Val", "P_Value", "Link_Type", "Significant"])):
+            d1 = exp(Ge)
+            try:
+                d1["Extra"] = 1; d1.loc[len(d1)] = [0] * len(d1.columns)
+            except Exception:  # noqa
+                pass
+            Ge2 = nx.MultiDiGraph(); Ge2.add_nodes_from(["a", "b"])
+            d2 = exp(Ge2)
+            run.case("history-empty", [it, cols], True)
+            if list(d2.columns) != cols or len(d2) != 0:
+                run.prop_fail("an edgeless graph does not give an empty frame with the base columns after the caller edited a previously returned frame (shared object)",
+                              {"columns": list(d2.columns), "rows": len(d2)}, {"clause": "empty", "history": True})
     # ---- PCMCI-graph export
     pgraphs = [rand_graph(rng, pcmci=True) for _ in range(300 if thorough else 80)] + [nx.MultiDiGraph()]
     for G in pgraphs:
